@@ -1344,6 +1344,7 @@ pub fn family<F: VF>(ctx: &mut Ctx) {
     select_small::<F>(ctx);
     cyclic::<F>(ctx);
     cyclic_wiring(ctx);
+    conditional_e2e(ctx);
 }
 
 // ------------------------------------------------------------------------------------------
@@ -1573,4 +1574,127 @@ pub fn cyclic_wiring(ctx: &mut Ctx) {
                 .key("cyclic-verifier:verifier-data-not-bound-to-inner-proof"),
         );
     });
+}
+
+// ------------------------------------------------------------------------------------------
+// C20, end to end on concrete proofs: `conditionally_verify_proof_or_dummy` accepts exactly when
+// the proof selected by the condition is valid, irrespective of the other one; for inner circuit
+// shapes whose configuration differs from the outer circuit's (cap height). Concrete values.
+// ------------------------------------------------------------------------------------------
+
+const COND_FILES: &[&str] = &[
+    "plonky2/src/recursion/conditional_recursive_verifier.rs::CircuitBuilder::conditionally_verify_proof_or_dummy",
+    "plonky2/src/recursion/conditional_recursive_verifier.rs::CircuitBuilder::conditionally_verify_proof",
+    "plonky2/src/recursion/dummy_circuit.rs::CircuitBuilder::dummy_proof_and_vk",
+    "plonky2/src/recursion/dummy_circuit.rs::dummy_circuit",
+    "plonky2/src/recursion/dummy_circuit.rs::dummy_proof",
+];
+
+pub fn conditional_e2e(ctx: &mut Ctx) {
+    use plonky2::plonk::config::PoseidonGoldilocksConfig as C;
+    use plonky2_field::goldilocks_field::GoldilocksField as G;
+    type P = ProofWithPublicInputs<G, C, 2>;
+    if ctx.is_witness_run() || !ctx.wants("C20.S.recursion.conditional.") {
+        return;
+    }
+    let std_cfg = CircuitConfig::standard_recursion_config();
+    let mut cap2 = CircuitConfig::standard_recursion_config();
+    cap2.fri_config.cap_height = 2;
+    // (name, inner configuration, inner circuit uses a lookup table, second branch is the library's dummy proof)
+    for (cname, inner_cfg, lookups, dummy) in [("or-dummy.standard", std_cfg.clone(), false, true), ("or-dummy.inner-cap-height-2", cap2.clone(), false, true), ("two-proofs.lookups", std_cfg.clone(), true, false), ("two-proofs.inner-cap-height-2", cap2, false, false)] {
+        let idp = format!("C20.S.recursion.conditional.{cname}");
+        ctx.guarded(&idp.clone(), COND_FILES, |ctx| {
+            let mut b = CircuitBuilder::<G, 2>::new(inner_cfg.clone());
+            let x = b.add_virtual_target();
+            let y = b.add_virtual_target();
+            let mut z = b.mul(x, y);
+            for _ in 0..40 {
+                z = b.mul_add(z, y, x);
+            }
+            if lookups {
+                let t: Vec<(u16, u16)> = (0..9u16).map(|i| (i, 2 * i + 1)).collect();
+                let lut = b.add_lookup_table_from_pairs(std::sync::Arc::new(t));
+                let k = b.constant(G::from_canonical_u64(4));
+                let o = b.add_lookup_from_index(k, lut);
+                z = b.add(z, o);
+            }
+            b.register_public_input(z);
+            let inner = b.build::<C>();
+            let prove_inner = |xv: u64| -> P {
+                let mut pw = PartialWitness::<G>::new();
+                pw.set_target(x, G::from_canonical_u64(xv)).unwrap();
+                pw.set_target(y, G::from_canonical_u64(77)).unwrap();
+                inner.prove(pw).expect("inner proof")
+            };
+            let (proof, other) = (prove_inner(3), prove_inner(5));
+            let mut ob = CircuitBuilder::<G, 2>::new(CircuitConfig::standard_recursion_config());
+            let cond = ob.add_virtual_bool_target_safe();
+            let cap_height = inner.common.config.fri_config.cap_height;
+            let pt = ob.add_virtual_proof_with_pis(&inner.common);
+            let vd = ob.add_virtual_verifier_data(cap_height);
+            let second = if dummy {
+                ob.conditionally_verify_proof_or_dummy::<C>(cond, &pt, &vd, &inner.common).expect("conditional verifier");
+                None
+            } else {
+                let pt1 = ob.add_virtual_proof_with_pis(&inner.common);
+                let vd1 = ob.add_virtual_verifier_data(cap_height);
+                ob.conditionally_verify_proof::<C>(cond, &pt, &vd, &pt1, &vd1, &inner.common);
+                Some((pt1, vd1))
+            };
+            let outer = ob.build::<C>();
+            let accepts = |c: bool, p: &P, p1: &P| -> bool {
+                let r = std::panic::catch_unwind(std::panic::AssertUnwindSafe(|| {
+                    let mut pw = PartialWitness::<G>::new();
+                    pw.set_bool_target(cond, c).ok()?;
+                    pw.set_proof_with_pis_target(&pt, p).ok()?;
+                    pw.set_verifier_data_target(&vd, &inner.verifier_only).ok()?;
+                    if let Some((pt1, vd1)) = &second {
+                        pw.set_proof_with_pis_target(pt1, p1).ok()?;
+                        pw.set_verifier_data_target(vd1, &inner.verifier_only).ok()?;
+                    }
+                    let op = outer.prove(pw).ok()?;
+                    outer.verify(op).ok()
+                }));
+                matches!(r, Ok(Some(())))
+            };
+            let alter = |p: &P, what: usize| -> P {
+                let mut q = p.clone();
+                match what {
+                    0 => q.proof.openings.wires[0] += <G as Extendable<2>>::Extension::ONE,
+                    1 => q.public_inputs[0] += G::ONE,
+                    _ => q.proof.opening_proof.query_round_proofs[1].initial_trees_proof.evals_proofs[0].1.siblings[0].elements[0] += G::ONE,
+                }
+                q
+            };
+            // (name, condition, first proof, second proof (ignored with the dummy), expected)
+            let mut cases: Vec<(String, bool, P, P, bool)> = vec![
+                ("cond=true, both valid".into(), true, proof.clone(), other.clone(), true),
+                ("cond=false, both valid".into(), false, proof.clone(), other.clone(), true),
+            ];
+            for (k, what) in ["opening", "public input", "Merkle sibling"].iter().enumerate() {
+                cases.push((format!("cond=true, first proof: altered {what}"), true, alter(&proof, k), other.clone(), false));
+                cases.push((format!("cond=false, first proof: altered {what} (not selected)"), false, alter(&proof, k), other.clone(), true));
+                if !dummy {
+                    cases.push((format!("cond=false, second proof: altered {what}"), false, proof.clone(), alter(&other, k), false));
+                    cases.push((format!("cond=true, second proof: altered {what} (not selected)"), true, proof.clone(), alter(&other, k), true));
+                }
+            }
+            let mut facts = vec![];
+            let mut wrong = vec![];
+            let n = cases.len();
+            for (name, c, p, p1, want) in cases {
+                let got = accepts(c, &p, &p1);
+                if got != want {
+                    wrong.push(format!("{name}: accepted = {got}"));
+                }
+                facts.push(A::Bool(got == want));
+            }
+            ctx.add(
+                Ob::new(format!("{idp}.accepts-iff-selected-valid"), COND_FILES, format!("inner circuit (41 multiply-adds{}; cap height {cap_height}); outer circuit under standard_recursion_config calling {}; {n} (condition, proofs) cases; concrete values", if lookups { ", one lookup" } else { "" }, if dummy { "conditionally_verify_proof_or_dummy" } else { "conditionally_verify_proof on two proofs of the inner circuit" }))
+                    .sample(format!("the conditional verifier circuit can be built for this inner shape and is satisfiable exactly when the proof selected by the condition is valid (an invalid unselected proof does not matter); wrong: {wrong:?}"))
+                    .goals(facts)
+                    .key(format!("conditional-verifier:acceptance-differs-from-selected-validity:{}", if dummy { "or-dummy" } else { "two-proofs" })),
+            );
+        });
+    }
 }
